@@ -816,3 +816,42 @@ Proof.
 Qed.
 
 End ComposedD.
+
+(* ------------------------------------------------------------------------------------------ *)
+(* the hypotheses are satisfiable: the concrete medium delivers octets; the example schedule of
+   Model/Multi.v is admissible                                                                  *)
+
+Lemma ideal_medium_bytes rate : medium_bytes (ideal_medium rate).
+Proof.
+  intros h i now. unfold ideal_medium. cbn [fst]. unfold all_bytes. rewrite Forall_forall. intros b Hb.
+  apply in_map_iff in Hb. destruct Hb as (x & <- & _). unfold is_byte. apply Z.mod_pos_bound. lia.
+Qed.
+
+Fixpoint sched_okb (last : nat -> Z) (sc : schedule) : bool :=
+  match sc with
+  | [] => true
+  | (i, ActPoll now) :: tl =>
+      (last i <? now) && (0 <=? now) && (now <? 4611686018427387904) && sched_okb (set_last last i now) tl
+  | _ :: tl => sched_okb last tl
+  end.
+
+Lemma sched_okb_sound sc : forall last, sched_okb last sc = true -> sched_ok last sc.
+Proof.
+  induction sc as [|[i a] tl IH]; intros last H; [exact I|]. destruct a as [| |now]; cbn [sched_okb sched_ok] in *.
+  - apply IH; exact H.
+  - apply IH; exact H.
+  - apply andb_prop in H. destruct H as (H & H4). apply andb_prop in H. destruct H as (H & H3).
+    apply andb_prop in H. destruct H as (H1 & H2). unfold time_ok.
+    split; [lia|]. split; [lia|]. apply IH; exact H4.
+Qed.
+
+Lemma ex2_hypotheses :
+  cfg_valid unit ex2_cfg /\ sched_ok (fun _ => 0) (ex2_schedule 300) /\ apps_total unit unit_app_ops /\
+  medium_bytes (ideal_medium 500000).
+Proof.
+  split; [|split; [|split]].
+  - unfold cfg_valid, ex2_cfg. constructor; [|constructor; [|constructor]]; cbn [fst]; unfold builder_valid, builder_max_address, builder_min_ttr, builder_max_ttr, builder_min_gap, builder_max_gap, builder_max_hsa, builder_min_retry, builder_max_retry, builder_min_tsdr; cbn; lia.
+  - apply sched_okb_sound. vm_compute. reflexivity.
+  - exact unit_apps_total.
+  - apply ideal_medium_bytes.
+Qed.
